@@ -471,4 +471,45 @@ Proof.
     pose proof (find_none _ _ F _ I) as N. simpl in N. congruence.
 Qed.
 
+(* ---------------- the hash has no history: it is a function of the current member tuple *)
+Notation hrun := (hrun leaf h).
+
+(* hashes taken along the way change nothing about the object *)
+Lemma hrun_members_ignore_hashes ops : forall l seen seen',
+  fst (hrun ops l seen) = fst (hrun (filter (is_mutation leaf) ops) l seen').
+Proof.
+  induction ops as [|o ops IH]; intros l seen seen'; [reflexivity|].
+  destruct o as [|i v|l']; simpl; apply IH.
+Qed.
+
+Lemma hrun_seen_app ops : forall l seen, snd (hrun ops l seen) = seen ++ snd (hrun ops l []).
+Proof.
+  induction ops as [|o ops IH]; intros l seen; [simpl; rewrite app_nil_r; reflexivity|].
+  destruct o as [|i v|l']; cbn [Hash.hrun]; try apply IH.
+  rewrite (IH l (seen ++ [hash (VObj l)])), (IH l ([] ++ [hash (VObj l)])). rewrite <- app_assoc. reflexivity.
+Qed.
+
+(* whatever happened before (hashes taken, members assigned, whole-object assignments): the hash asked for
+   at the end is the hash of a freshly built object with the members the object has now *)
+Lemma hrun_then_hash ops : forall l seen,
+  hrun (ops ++ [HHash]) l seen =
+  (fst (hrun ops l seen), snd (hrun ops l seen) ++ [hash (VObj (fst (hrun ops l seen)))]).
+Proof.
+  induction ops as [|o ops IH]; intros l seen; [reflexivity|].
+  destruct o as [|i v|l']; cbn [Hash.hrun app]; apply IH.
+Qed.
+
+Lemma hash_after_history ops l :
+  fst (hrun (ops ++ [HHash]) l []) = fst (hrun ops l []) /\
+  snd (hrun (ops ++ [HHash]) l []) = snd (hrun ops l []) ++ [hash (VObj (fst (hrun ops l [])))].
+Proof. rewrite hrun_then_hash. split; reflexivity. Qed.
+
+(* hence it agrees with the hash of every equal value, however that one came to be *)
+Lemma hash_after_history_eq ops l y :
+  veqb (VObj (fst (hrun ops l []))) y = true ->
+  snd (hrun (ops ++ [HHash]) l []) = snd (hrun ops l []) ++ [hash y].
+Proof.
+  intros E. destruct (hash_after_history ops l) as [_ ->]. rewrite (hash_respects_eq _ _ E). reflexivity.
+Qed.
+
 End Proofs.
